@@ -363,19 +363,6 @@ Section Exec.
     end.
 End Exec.
 
-(** the (manager, event) pairs a program can fire, syntactically *)
-Fixpoint sites (p : stmt) : list (target * ev) :=
-  match p with
-  | Fire e => [(TCtx, e)]
-  | FireOn t e => [(t, e)]
-  | Seq a b => sites a ++ sites b
-  | If _ a b => sites a ++ sites b
-  | Try a b => sites a ++ sites b
-  | IfExc _ a b => sites a ++ sites b
-  | Call b => sites b
-  | _ => []
-  end.
-
 (** what a whole call amounts to *)
 Inductive result :=
 | RDone (fault : bool)      (* the driver returned; fault = ctx.out_error is set = a fault was answered *)
